@@ -516,6 +516,110 @@ func toSigned(v *big.Int, w int) *big.Int {
 	return x
 }
 
+// linear normal form of bit-vector sums: atoms sorted by id with coefficients, constant last.
+type linSum struct {
+	coef map[*Term]*big.Int
+	c    *big.Int
+}
+
+func linDecompose(t *Term, mul *big.Int, out *linSum, depth int) {
+	w := t.S.W
+	m := new(big.Int).Lsh(big.NewInt(1), uint(w))
+	switch {
+	case t.Op == "const":
+		out.c.Add(out.c, new(big.Int).Mul(t.V, mul))
+		out.c.Mod(out.c, m)
+		return
+	case depth < 64 && t.Op == "bvadd":
+		linDecompose(t.Args[0], mul, out, depth+1)
+		linDecompose(t.Args[1], mul, out, depth+1)
+		return
+	case depth < 64 && t.Op == "bvsub":
+		linDecompose(t.Args[0], mul, out, depth+1)
+		neg := new(big.Int).Neg(mul)
+		neg.Mod(neg, m)
+		linDecompose(t.Args[1], neg, out, depth+1)
+		return
+	case depth < 64 && t.Op == "bvmul" && t.Args[1].Op == "const":
+		nm := new(big.Int).Mul(mul, t.Args[1].V)
+		nm.Mod(nm, m)
+		linDecompose(t.Args[0], nm, out, depth+1)
+		return
+	}
+	c := out.coef[t]
+	if c == nil {
+		c = new(big.Int)
+		out.coef[t] = c
+	}
+	c.Add(c, mul)
+	c.Mod(c, m)
+}
+
+func linBuild(ls *linSum, w int) *Term {
+	var atoms []*Term
+	for t, c := range ls.coef {
+		if c.Sign() != 0 {
+			atoms = append(atoms, t)
+		}
+	}
+	sort.Slice(atoms, func(i, j int) bool { return atoms[i].id < atoms[j].id })
+	half := new(big.Int).Lsh(big.NewInt(1), uint(w-1))
+	full := new(big.Int).Lsh(big.NewInt(1), uint(w))
+	var acc *Term
+	scaled := func(t *Term, c *big.Int) *Term {
+		if c.Cmp(big.NewInt(1)) == 0 {
+			return t
+		}
+		return raw("bvmul", t.S, t, BVConstBig(c, w))
+	}
+	var negs []*Term
+	for _, t := range atoms {
+		c := ls.coef[t]
+		if c.Cmp(half) >= 0 && len(atoms) > 1 {
+			negs = append(negs, scaled(t, new(big.Int).Sub(full, c)))
+			continue
+		}
+		x := scaled(t, c)
+		if acc == nil {
+			acc = x
+		} else {
+			acc = raw("bvadd", x.S, acc, x)
+		}
+	}
+	for _, x := range negs {
+		if acc == nil {
+			acc = raw("bvsub", x.S, BVConst(0, w), x)
+		} else {
+			acc = raw("bvsub", x.S, acc, x)
+		}
+	}
+	if acc == nil {
+		return BVConstBig(ls.c, w)
+	}
+	if ls.c.Sign() != 0 {
+		acc = raw("bvadd", acc.S, acc, BVConstBig(ls.c, w))
+	}
+	return acc
+}
+
+func linCombine(op string, a, b *Term) *Term {
+	w := a.S.W
+	ls := &linSum{coef: map[*Term]*big.Int{}, c: new(big.Int)}
+	linDecompose(a, big.NewInt(1), ls, 0)
+	switch op {
+	case "bvadd":
+		linDecompose(b, big.NewInt(1), ls, 0)
+	case "bvsub":
+		linDecompose(b, mask(w), ls, 0) // -1
+	case "bvmul":
+		// a * const
+		ls2 := &linSum{coef: map[*Term]*big.Int{}, c: new(big.Int)}
+		linDecompose(a, b.V, ls2, 0)
+		ls = ls2
+	}
+	return linBuild(ls, w)
+}
+
 // BVOp builds a bit-vector binary operation.
 func BVOp(op string, a, b *Term) *Term {
 	if a.S != b.S || a.S.K != SBV {
@@ -598,6 +702,19 @@ func BVOp(op string, a, b *Term) *Term {
 	}
 	zero := func(t *Term) bool { return t.Op == "const" && t.V.Sign() == 0 }
 	ones := func(t *Term) bool { return t.Op == "const" && t.V.Cmp(mask(w)) == 0 }
+	if w == 64 && !a.bound && !b.bound {
+		switch op {
+		case "bvadd", "bvsub":
+			return linCombine(op, a, b)
+		case "bvmul":
+			if a.Op == "const" {
+				a, b = b, a
+			}
+			if b.Op == "const" {
+				return linCombine(op, a, b)
+			}
+		}
+	}
 	switch op {
 	case "bvadd":
 		if zero(a) {
@@ -693,6 +810,19 @@ func BVOp(op string, a, b *Term) *Term {
 		if a == b {
 			return a
 		}
+		// (x << c) | (x >> (w-c))  =  rotate_left c x
+		for k := 0; k < 2; k++ {
+			x, y := a, b
+			if k == 1 {
+				x, y = b, a
+			}
+			if x.Op == "bvshl" && y.Op == "bvlshr" && x.Args[0] == y.Args[0] && x.Args[1].Op == "const" && y.Args[1].Op == "const" {
+				c1, c2 := x.Args[1].V.Int64(), y.Args[1].V.Int64()
+				if c1 > 0 && c2 > 0 && c1+c2 == int64(w) {
+					return RotL(x.Args[0], int(c1))
+				}
+			}
+		}
 		if ones(a) || ones(b) {
 			return BVConstBig(mask(w), w)
 		}
@@ -744,6 +874,23 @@ func BVOp(op string, a, b *Term) *Term {
 		return raw(op, BoolS, a, b)
 	}
 	return raw(op, a.S, a, b)
+}
+
+// RotL: rotate left by a constant.
+func RotL(a *Term, c int) *Term {
+	w := a.S.W
+	c %= w
+	if c == 0 {
+		return a
+	}
+	if a.Op == "const" {
+		v := new(big.Int).Lsh(a.V, uint(c))
+		v.Or(v, new(big.Int).Rsh(a.V, uint(w-c)))
+		return BVConstBig(v, w)
+	}
+	t := &Term{Op: "rotl", S: a.S, Args: []*Term{a}}
+	t.P = [2]int{c, 0}
+	return intern(t)
 }
 
 func BVNot(a *Term) *Term {
@@ -1108,6 +1255,8 @@ func Rebuild(t *Term, a []*Term) *Term {
 		return Extract(t.P[0], t.P[1], a[0])
 	case "concat":
 		return Concat(a[0], a[1])
+	case "rotl":
+		return RotL(a[0], t.P[0])
 	case "zero_extend":
 		return ZeroExt(a[0], t.S.W)
 	case "sign_extend":
@@ -1230,6 +1379,8 @@ func (p *Printer) str(t *Term) string {
 		s = fmt.Sprintf("((_ extract %d %d) %s)", t.P[0], t.P[1], p.str(t.Args[0]))
 	case "zero_extend", "sign_extend":
 		s = fmt.Sprintf("((_ %s %d) %s)", t.Op, t.P[0], p.str(t.Args[0]))
+	case "rotl":
+		s = fmt.Sprintf("((_ rotate_left %d) %s)", t.P[0], p.str(t.Args[0]))
 	case "constarr":
 		s = fmt.Sprintf("((as const %s) %s)", t.S.str, p.str(t.Args[0]))
 	case "forall", "exists":
